@@ -33,7 +33,25 @@ os.environ.setdefault("XSTATE_STATEMACHINE_VERIF", "1")
 
 import logging  # noqa: E402
 
-logging.disable(logging.CRITICAL)   # the library logs every step; silence it inside checks
+logging.disable(logging.WARNING)    # the library logs every step; keep only ERROR+ and capture those
+
+
+class _Capture(logging.Handler):
+    records = []
+
+    def emit(self, record):
+        try:
+            _Capture.records.append(record.getMessage()[:120])
+            if len(_Capture.records) > 2000:
+                del _Capture.records[:1000]
+        except Exception:
+            pass
+
+
+_lg = logging.getLogger("xstate_statemachine")
+_lg.addHandler(_Capture())
+_lg.propagate = False
+logging.getLogger("asyncio").setLevel(logging.CRITICAL)
 
 
 def load_json(path, default):
